@@ -329,10 +329,12 @@ func (w *condWorld) nearCondition(base cSecret) cSecret {
 		if pk >= 0 {
 			c.tags = append(c.tags[:pk], c.tags[pk+1:]...)
 		}
-	case 1: // drop one listed key
-		if pk >= 0 && len(c.tags[pk].keys) > 0 {
+	case 1: // drop one listed key (a pubkeys tag without any key would be a malformed tag, which is another matter)
+		if pk >= 0 && len(c.tags[pk].keys) > 1 {
 			k := w.rng.Intn(len(c.tags[pk].keys))
 			c.tags[pk].keys = append(c.tags[pk].keys[:k], c.tags[pk].keys[k+1:]...)
+		} else if pk >= 0 {
+			c.tags = append(c.tags[:pk], c.tags[pk+1:]...)
 		}
 	case 2: // the lock key is one of base's listed keys (and the list is gone)
 		if pk >= 0 && len(c.tags[pk].keys) > 0 && !c.isHash {
